@@ -45,7 +45,7 @@ def do_call(it, c):
     elif k == 'svar':
         it.svar(int(c[1]))
     elif k == 'symbol':
-        it.symbol('s' + c[1])
+        it.symbol(str(int(c[1]) - 3000) if 3000 <= int(c[1]) < 4000 else 's' + c[1])
     elif k == 'metavar':
         ids = [tuple(int(a) for a in l) for l in c[2:7]]
         it.metavar(int(c[1]), tuple(P.EVar(i) for i in ids[0]), tuple(P.SVar(i) for i in ids[1]),
